@@ -82,12 +82,41 @@ def descr_ty(t, maps) -> str:
     raise TypeError(f"unsupported field type {t!r}")
 
 
+def _probed_map(cls, method: str, universe):
+    """the remap as the code BEHAVES (used when the dict literal is not where the translator looks for it):
+    every string constant of the module and every field name is put through the class's own function"""
+    f = getattr(cls, method, None)
+    if f is None:
+        return []
+    out = []
+    for s in universe:
+        try:
+            r = f(s)
+        except Exception:  # noqa: BLE001
+            continue
+        if isinstance(r, str) and r != s:
+            out.append((s, r))
+    return out
+
+
 def source_maps(mod_ast):
+    consts = []
+    for n in ast.walk(mod_ast):
+        if isinstance(n, ast.Constant) and isinstance(n.value, str) and n.value not in consts:
+            consts.append(n.value)
+
     def maps(cls):
-        return (
-            _class_map(mod_ast, cls.__name__, "header_name_to_field_name"),
-            _class_map(mod_ast, cls.__name__, "field_name_to_header_name"),
-        )
+        try:
+            return (
+                _class_map(mod_ast, cls.__name__, "header_name_to_field_name"),
+                _class_map(mod_ast, cls.__name__, "field_name_to_header_name"),
+            )
+        except KeyError:
+            universe = consts + [f for f in getattr(cls, "__fields__", {}) if f not in consts]
+            return (
+                _probed_map(cls, "header_name_to_field_name", universe),
+                _probed_map(cls, "field_name_to_header_name", universe),
+            )
 
     return maps
 
